@@ -452,7 +452,7 @@ Lemma arr_step a0 es more prev i n acc (first bb : bool) wrt cols awtl fuel res 
   exists its1 inc t (brk : bool) cols2 awtl2,
     (1 <= inc <= length (a0 :: es))%nat /\ iorig its1 = firstn inc (a0 :: es) /\
     iter_text prev its1 t /\ (forall p, ilast its1 = Some p -> scalar p) /\ first_notconf prev its1 /\
-    nth_error (a0 :: es) (inc - 1) = ilast its1 /\
+    nth_error (a0 :: es) (inc - 1) = ilast its1 /\ (awtl = 0 -> brk = false) /\
     print_array_loop pavf parr fuel o (skipn inc (a0 :: es) ++ more) (ilast its1) (i + Z.of_nat inc) n
       (if first then (if brk then sp4 ++ acc ++ t else acc ++ t)
        else acc ++ (if brk then nl4 else [32]) ++ t)
@@ -495,7 +495,9 @@ Proof.
   all: rewrite Hs1 in Hrun; rewrite Hf1 in Horig.
   all: exists its1, inc, t, brk_, cols2, awtl2.
   all: split; [lia|]; split; [exact Horig|]; split; [exact Hit|].
-  all: split; [intros p Ep; exact (iter_last_scalar _ _ _ _ Hit Ep)|]; split; [exact Hnc|]; split; [exact Hn1|exact Hrun].
+  all: split; [intros p Ep; exact (iter_last_scalar _ _ _ _ Hit Ep)|]; split; [exact Hnc|]; split; [exact Hn1|].
+  all: split; [intros ->; unfold lb_check in Elb; cbn [Z.add Z.ltb Z.compare Pos.compare Pos.compare_cont] in Elb;
+               rewrite andb_false_r in Elb; now inversion Elb|exact Hrun].
 Qed.
 
 (* the iterations after the first *)
@@ -513,7 +515,7 @@ Proof.
   - cbn [print_array_loop] in Hrun. cbn in Hn. replace (n <? i) with true in Hrun by lia. inversion Hrun; subst.
     exists [], []. rewrite app_nil_r. cbn. repeat split; try lia; try congruence.
   - destruct (arr_step a0 rest more prev i n acc false bb wrt cols awtl fuel _ Hg Hgm Hlen Hn Hrun)
-      as (its1 & inc & t & brk & cols2 & awtl2 & Hrange & Horig & Hit & Hsc & _ & Hnth & Hrun2).
+      as (its1 & inc & t & brk & cols2 & awtl2 & Hrange & Horig & Hit & Hsc & _ & Hnth & _ & Hrun2).
     assert (Hl2 : length (skipn inc (a0 :: rest)) = (length (a0 :: rest) - inc)%nat) by apply skipn_length.
     assert (Hg2 : Forall (goodc o zf zd) (skipn inc (a0 :: rest)))
       by (rewrite <- (firstn_skipn inc (a0 :: rest)) in Hg; now apply Forall_app in Hg as [_ Hg]).
@@ -544,7 +546,7 @@ Lemma print_array_iseq n ty elems more cols blank text w c bb :
   print_array pavf parr o (VArr ty n :: elems ++ more) cols blank = Some (text, w, c, bb) ->
   exists its T, text = (if bb then sp4 else []) ++ 91 :: T ++ [93] /\ w = len text /\
     iseq_from false None its T /\ iorig its = elems /\ its <> [] /\
-    nth_error elems (length elems - 1) = ilast its.
+    nth_error elems (length elems - 1) = ilast its /\ (blank = false -> bb = false).
 Proof.
   intros Hg Hgm Hlen Hn Hne Hrun. unfold print_array in Hrun.
   destruct elems as [|a0 rest]; [congruence|].
@@ -554,7 +556,7 @@ Proof.
   assert (Hfu : S (length ((a0 :: rest) ++ more)) = S (S (length (rest ++ more)))) by reflexivity.
   rewrite Hfu in Eloop.
   destruct (arr_step a0 rest more None 1 n [91] true false 1 (cols + 1) _ _ _ Hg Hgm Hlen ltac:(lia) Eloop)
-    as (its1 & inc & t & brk & cols2 & awtl2 & Hrange & Horig & Hit & Hsc & _ & Hnth & Hrun2).
+    as (its1 & inc & t & brk & cols2 & awtl2 & Hrange & Horig & Hit & Hsc & _ & Hnth & Hbrk & Hrun2).
   assert (Hl2 : length (skipn inc (a0 :: rest)) = (length (a0 :: rest) - inc)%nat) by apply skipn_length.
   assert (Hg2 : Forall (goodc o zf zd) (skipn inc (a0 :: rest)))
     by (rewrite <- (firstn_skipn inc (a0 :: rest)) in Hg; now apply Forall_app in Hg as [_ Hg]).
@@ -566,7 +568,8 @@ Proof.
   split; [destruct brk; cbn [app sp4]; rewrite <- ?app_assoc; reflexivity|].
   split; [destruct brk; unfold sp4; rewrite ?len_app; cbn [app]; unfold len; cbn [length];
           rewrite ?app_length; cbn [length]; rewrite ?app_length; lia|].
-  split; [|split; [|split]].
+  split; [|split; [|split; [|split]]].
+  5: { intros ->. apply Hbrk. cbn [negb]. now rewrite orb_true_r. }
   - change (t ++ sfx2) with ([] ++ t ++ sfx2). apply iter_join; try assumption. reflexivity.
   - rewrite iorig_app, Horig, Horig2. apply firstn_skipn.
   - destruct its1; [cbn [ListProofs.iter_text] in Hit; contradiction|discriminate].
@@ -741,7 +744,7 @@ Proof.
   - rewrite <- (app_nil_r (a0 :: rest)) in Epa at 2.
     destruct (print_array_iseq dec2f dec2d o print_arr 4 zf zd Hz _ ty (a0 :: rest) [] 0 false t tmp cols1 false Hg (Forall_nil _)
                 ltac:(rewrite app_nil_r; lia) eq_refl
-                ltac:(discriminate) Epa) as (its & T & -> & -> & Hseq & Horig & Hne & _).
+                ltac:(discriminate) Epa) as (its & T & -> & -> & Hseq & Horig & Hne & _ & _).
     destruct (iseq_from_iseq dec2f dec2d _ _ _ _ Hseq Hne) as (sepz & T' & -> & HL & ->). cbn [app].
     assert (Hty : atys_ok 0 its).
     { apply (atys_from (a0 :: rest) Hh); [|left; reflexivity].
